@@ -50,7 +50,7 @@ static std::string opFisher(Args& A, Session* S){
 	bool inexact = fpInexact();
 	try{ trainer.train(model, data); }catch(std::exception const&){ return "exc"; }
 	RealMatrix W = model.matrix(); RealVector b = model.offset();
-	o.vec("gmean", gmean); o.mat("W", W); o.vec("b", b);
+	o.vec("gmean", gmean); o.mat("W", W); o.vec("b", b); o.mat("scatter", scatter);
 	if(S){
 		LinearModel<> m2; RealVector g2(d); RealMatrix s2(d, d);
 		try{ freshTrainer.stats(data, g2, s2); freshTrainer.train(m2, data);
